@@ -193,7 +193,7 @@ def stepRec (c : Rec) (r0 : R) : M R := do
       pure r
     | "au" => pure r
     | "ad" => pure r
-    | "SC" => pure { r with joined := false }
+    | "SC" => pure r
     | "SR" => pure r
     | "sr" =>
       let w ← argNat c.args 0
@@ -202,7 +202,7 @@ def stepRec (c : Rec) (r0 : R) : M R := do
       expect (w == (r.s.live : Int)) s!"sr: workers not told to exit observed {w}, model {r.s.live} (len(workerMap) = {r.s.workerCount})"
       -- the deciding critical section: this call's count is the target from now on
       let k := if k < 0 then 0 else k
-      pure { r with swcRead := setAssoc r.swcRead c.thread (w, k), lastSet := some k }
+      pure { r with swcRead := setAssoc r.swcRead c.thread (w, k), lastSet := some k, joined := false }
     | "su" =>
       let n ← argNat c.args 0
       match r.swcRead.lookup c.thread with
@@ -242,7 +242,10 @@ def stepRec (c : Rec) (r0 : R) : M R := do
     | "WR" =>
       pure { r with waSeen := true, waOk := r.waOk && (r.wsOk.lookup c.thread == some true) }
     | "JC" => pure { r with joined := true }
-    | "jk" => ev .joinKill r
+    | "jk" => do
+      -- JoinAll's request, also re-asserted by its loop after a SetWorkerCount overwrote it: JoinAll wins
+      let r ← ev .joinKill r
+      pure { r with joined := true }
     | "js" =>
       let w ← argNat c.args 0
       let t ← argNat c.args 1
@@ -251,7 +254,7 @@ def stepRec (c : Rec) (r0 : R) : M R := do
       let sound := !joinAllGuard r.s || (r.s.running.isEmpty && r.s.done.length == r.s.added.length)
       pure { r with wsOk := setAssoc r.wsOk c.thread (joinAllGuard r.s && sound) }
     | "JR" =>
-      pure { r with jaSeen := true, jaOk := r.jaOk && (r.wsOk.lookup c.thread == some true) }
+      pure { r with jaSeen := true, joined := true, jaOk := r.jaOk && (r.wsOk.lookup c.thread == some true) }
     | "bc" => pure r
     | x => throw s!"unknown caller record {x}"
 
